@@ -151,6 +151,8 @@ type config struct {
 	preload int   // number of k-keys preloaded by the first two log entries (0 = none)
 	ops     []int // alphabet
 	depth   int
+	prune   func(prefix []int) bool // optional: subtrees left out (documented in the config name)
+	minLen  int                     // optional: only histories of at least this length
 }
 
 type leader struct {
@@ -669,7 +671,10 @@ func names(h []int) []string {
 func enumerate(cfg config, f func(h []int)) {
 	var rec func(h []int)
 	rec = func(h []int) {
-		if len(h) > 0 {
+		if cfg.prune != nil && cfg.prune(h) {
+			return
+		}
+		if len(h) > 0 && len(h) >= cfg.minLen {
 			f(append([]int(nil), h...))
 		}
 		if len(h) == cfg.depth {
@@ -739,8 +744,8 @@ func evalHistory(j job, p pass, worker int, st *stats, withLeaderRoute bool) (vs
 		for i := 0; i <= n; i++ {
 			add(routeR3(l, i, st), "R3")
 			for f := 0; f <= i; f++ {
-				if !allPairs && f != i && f != i-1 && f != 1 && !(f == 0 && i <= 1) {
-					continue // quick tier: flush right before the crash, one entry earlier, after the first entry
+				if !allPairs && f != i && f != i-1 {
+					continue // quick tier: flush right before the crash and one entry earlier (f=0: no flush at all)
 				}
 				add(routeR4(l, f, i, st), "R4")
 			}
@@ -886,12 +891,12 @@ func configs(tier string) []config {
 	big := []int{opDelRangeK, opPutKIdx, opPutEphA, opSessClose, opSeq2, opPutThenBadSeq}
 	if tier == "thorough" {
 		return []config{
-			{"full/empty", 0, full, 4},
-			{"sessions/empty", 0, sess, 5},
-			{"sequences/empty", 0, seqs, 5},
-			{"indexes/empty", 0, idxs, 5},
-			{"range-delete/preload=101", 101, big, 4},
-			{"range-delete/preload=100", 100, big, 4},
+			{"full/empty", 0, full, 4, nil, 0},
+			{"sessions/empty", 0, sess, 5, nil, 0},
+			{"sequences/empty", 0, seqs, 5, nil, 0},
+			{"indexes/empty", 0, idxs, 5, nil, 0},
+			{"range-delete/preload=101", 101, big, 4, nil, 0},
+			{"range-delete/preload=100", 100, big, 4, nil, 0},
 		}
 	}
 	// quick: the full alphabet without three operations whose effect class is covered by a sibling
@@ -902,12 +907,16 @@ func configs(tier string) []config {
 		}
 	}
 	return []config{
-		{"full/empty", 0, most, 3},
-		{"sessions/empty", 0, sess, 4},
-		{"sequences/empty", 0, seqs, 3},
-		{"indexes/empty", 0, idxs, 3},
-		{"range-delete/preload=101", 101, big, 3},
-		{"range-delete/preload=100", 100, big, 2},
+		{"full/empty", 0, most, 3, nil, 0},
+		{"sessions/empty", 0, sess, 3, nil, 0},
+		// depth 4 only below prefixes that create a session within the first two entries
+		{"sessions/empty (length 4, session created in the first two entries)", 0, sess, 4, func(h []int) bool {
+			return len(h) >= 2 && h[0] != opSessCreate && h[1] != opSessCreate
+		}, 4},
+		{"sequences/empty", 0, seqs, 3, nil, 0},
+		{"indexes/empty", 0, idxs, 3, nil, 0},
+		{"range-delete/preload=101", 101, big, 3, nil, 0},
+		{"range-delete/preload=100", 100, big, 2, nil, 0},
 	}
 }
 
@@ -944,7 +953,7 @@ func main() {
 		}
 	}
 	passes := []pass{{"routes R2,R3,R4,R6", 0, "", 0}, {"R5 chunk=7", 7, "", 0}, {"R5 chunk=1MiB (not full/, sessions/)", 1 << 20, "full/,sessions/", 0}}
-	budget := 90 * time.Second
+	budget := 120 * time.Second // safety net only: ~10 s of work on 16 idle cores (~150 cpu-s)
 	r6every := 40
 	if run.Tier == "thorough" {
 		allPairs = true
